@@ -15,14 +15,32 @@ func init() { rt.Register("H_C14_iter", H_C14_iter) }
 
 type c14State struct{ n int64 }
 
+// c14NilAt: in the third family the value yielded for n == c14NilAt is nil (the model
+// reports it as c14Nil); c14NilOn is false for the other families.
+var c14NilOn bool
+var c14NilAt int64
+
+const c14Nil = int64(-1 << 62)
+
 // model: one next() of the family  <{|n| yield n * 10 + 1 if n < lim; recur(n + d)}>
 func (s *c14State) next(lim, d int64) (int64, bool) {
 	if s.n < lim {
 		v := s.n*10 + 1
+		if c14NilOn && s.n == c14NilAt {
+			v = c14Nil
+		}
 		s.n += d
 		return v, true
 	}
 	return 0, false
+}
+
+// c14Is: res is the value the model expects (an int, or nil for c14Nil)
+func c14Is(res object.PanObject, v int64) bool {
+	if v == c14Nil {
+		return isNil(res)
+	}
+	return isInt(res, v)
 }
 
 func c14Small(lo, hi int64) int64 {
@@ -45,9 +63,17 @@ func H_C14_iter() {
 	h.Set("lim", object.NewPanInt(lim))
 	h.Set("d", object.NewPanInt(d))
 	lit := `gen := <{|n| yield n * 10 + 1 if n < lim; recur(n + d)}>`
+	c14NilOn = false
 	if rt.Param(4) == 1 {
 		// the same iterator written without declared parameters (state in the implicit argument \)
 		lit = "gen := <{yield \\ * 10 + 1 if \\ < lim; recur(\\ + d)}>"
+	}
+	if rt.Param(4) == 2 {
+		// a body whose first yield gives nil for one argument value z, followed by a second
+		// yield and by a non-nil last statement: next returns the FIRST yielded value, nil included
+		c14NilOn, c14NilAt = true, c14Small(-3, 5)
+		h.Set("z", object.NewPanInt(c14NilAt))
+		lit = `gen := <{|n| yield (nil if n == z else n * 10 + 1) if n < lim; recur(n + d); yield 77; n * 10 + 7}>`
 	}
 	r := h.EvalNoPanic(lit)
 	_, isErr := r.(*object.PanErr)
@@ -62,20 +88,38 @@ func H_C14_iter() {
 		h.EvalNoPanic(fmt.Sprintf(`it%d := gen.new(a)`, i))
 		st[i] = &c14State{n0}
 	}
-	checkList := func(res object.PanObject, s c14State) {
+	// checkList: mode 0 = the array holds the visited values; 1 = each visited value wrapped in a
+	// one-element array (nil visible); 2 = the visited values with nil dropped (a list chain,
+	// and A which is one, drops nil results by design)
+	checkList := func(res object.PanObject, s c14State, mode int) {
 		arr, ok := res.(*object.PanArr)
 		rt.Assert(ok, "a chain or A over an iterator must give an array")
+		if !ok {
+			return
+		}
 		j := 0
-		for {
+		for k := 0; ; k++ {
 			v, more := s.next(lim, d)
 			if !more {
 				break
 			}
-			rt.Assert(j < len(arr.Elems) && isInt(arr.Elems[j], v), "a chain visits exactly the values successive next calls would return")
-			j++
-			if j > 12 {
+			if k > 12 {
 				rt.Assume(false)
 			}
+			if mode == 2 && v == c14Nil {
+				continue
+			}
+			var got object.PanObject
+			if j < len(arr.Elems) {
+				got = arr.Elems[j]
+				if w, isArr := got.(*object.PanArr); mode == 1 && isArr && len(w.Elems) == 1 {
+					got = w.Elems[0]
+				} else if mode == 1 {
+					got = nil
+				}
+			}
+			rt.Assert(got != nil && c14Is(got, v), "a chain visits exactly the values successive next calls would return")
+			j++
 		}
 		rt.Assert(len(arr.Elems) == j, "a chain stops at the first StopIterErr")
 	}
@@ -93,16 +137,25 @@ func H_C14_iter() {
 			res := h.EvalNoPanic(fmt.Sprintf(`it%d.next`, i))
 			v, more := st[i].next(lim, d)
 			if more {
-				rt.Assert(isInt(res, v), "next must return the value yielded for the current arguments")
+				rt.Assert(c14Is(res, v), "next must return the value yielded for the current arguments")
 			} else {
 				rt.Assert(isErrKind(res, object.StopIterErr), "next must raise StopIterErr exactly when the yield guard is false, and keep doing so")
 			}
 		case 1: // list chain over the iterator: does not advance it
-			res := h.EvalNoPanic(fmt.Sprintf(`it%d@{|x| x}`, i))
-			checkList(res, *st[i])
+			if c14NilOn {
+				res := h.EvalNoPanic(fmt.Sprintf(`it%d@{|x| [x]}`, i))
+				checkList(res, *st[i], 1)
+			} else {
+				res := h.EvalNoPanic(fmt.Sprintf(`it%d@{|x| x}`, i))
+				checkList(res, *st[i], 0)
+			}
 		case 2: // A
 			res := h.EvalNoPanic(fmt.Sprintf(`it%d.A`, i))
-			checkList(res, *st[i])
+			if c14NilOn {
+				checkList(res, *st[i], 2)
+			} else {
+				checkList(res, *st[i], 0)
+			}
 		case 3: // a fresh iterator from the same literal replaces it_i
 			n0 := c14Small(-3, 5)
 			if narrow {
@@ -128,7 +181,7 @@ func H_C14_iter() {
 			res := h.EvalNoPanic(fmt.Sprintf(`it%d.next`, i))
 			v, more := st[i].next(lim, d)
 			if more {
-				rt.Assert(isInt(res, v), "iterators made from one literal never share progress")
+				rt.Assert(c14Is(res, v), "iterators made from one literal never share progress")
 			} else {
 				rt.Assert(isErrKind(res, object.StopIterErr), "iterators made from one literal never share progress")
 			}
